@@ -43,31 +43,14 @@ impl From<octets::BufferTooShortError> for SerializationError {
 impl Packet {
 //@fn renet/src/packet.rs Packet::sequence
 //@ret r
-//@spec
-        ensures r == packet_seq(*self),            // @C08,C16 sequence.is_the_packet_sequence
+//@specfile contracts/shared/Packet.sequence.spec
 //@endfn
 
 //@fn renet/src/packet.rs Packet::to_bytes
 //@ret r
 //@safety C13
 //@attr #[verifier::loop_isolation(false)]
-//@spec
-        requires
-            packet_encodable(*self),
-        ensures
-            !(*self is Ack) ==> {
-                // serialization fails only if the buffer is shorter than the packet's wire length, and writes exactly that many bytes
-                &&& (r is Ok <==> old(b).cap_spec() >= wire_len(*self))                                   // @C13 to_bytes.fails_only_when_buffer_too_short
-                &&& (r matches Ok(n) ==> n == wire_len(*self) && final(b).cap_spec() + n == old(b).cap_spec())     // @C13,C16 to_bytes.writes_exactly_wire_len
-                // what is written is the wire format of this packet, appended to what the buffer held
-                &&& (r is Ok ==> final(b).out() == old(b).out() + wire(pview(*self)))                              // @C16 to_bytes.writes_the_wire_format
-                // (that the error value is BufferTooShort is not stated: this Verus version leaves the `?` From-conversion unspecified)
-            },
-            // acknowledgement packets: exactly the wire format, failing only when the buffer is shorter than it
-            *self is Ack ==> {
-                &&& (r is Ok <==> old(b).cap_spec() >= wire(pview(*self)).len())                                   // @C13 to_bytes.ack_fails_only_when_buffer_too_short
-                &&& (r matches Ok(n) ==> n == wire(pview(*self)).len() && final(b).out() == old(b).out() + wire(pview(*self)))   // @C13,C16 to_bytes.ack_writes_the_wire_format
-            },
+//@specfile contracts/shared/Packet.to_bytes.spec
 //@entry
         let ghost cap0 = b.cap_spec();
         let ghost out0 = b.out();
@@ -189,15 +172,7 @@ impl Packet {
 //@ret r
 //@safety C06
 //@attr #[verifier::loop_isolation(false)]
-//@spec
-        // no precondition: any datagram
-        ensures
-            r matches Ok(p) ==> packet_wire_valid(p),                    // @C06,C16 from_bytes.decoded_packet_is_wire_valid
-            // the function computes the wire parser: it accepts exactly what `parse` accepts, returns that packet and consumes exactly its bytes
-            r matches Ok(p) ==> parse(old(b).rest()) == Some((pview(p), final(b).rest())),     // @C16 from_bytes.result_is_the_wire_parse
-            r is Err ==> parse(old(b).rest()) is None,                                          // @C16 from_bytes.refuses_only_what_the_format_refuses
-            // everything that decodes lies in the domain of the round-trip lemma: re-encoding it and decoding again gives the same value
-            r matches Ok(p) ==> wire_ok(pview(p)),                                              // @C16 from_bytes.decoded_packet_is_in_the_round_trip_domain
+//@specfile contracts/shared/Packet.from_bytes.spec
 //@entry
         let ghost rest0 = b.rest();
 //@after /let packet_type = b\.get_u8\(\)\?;/
